@@ -23,6 +23,7 @@ SPEC = {
                     "PendingIsoAddressClaim is never armed",
                     "no application-declared PGN lists; message forwarding off",
                     "CAN frames have at most 8 data bytes; a shorter TP frame is processed on the driver's 8-byte buffer as the library does",
+                    "the BAM re-arm interval is a parameter of the model (Node.bamGap, measured on the node at start-up; the statement only bounds it from below); "
                     "pacing is measured where frames are produced; under driver back-pressure frames leave later through the send queue (C11)",
                     "theorems about emitted frames assume a 'quiet' node (device may transmit, queue empty, driver accepts); the "
                     "back-pressure paths are covered by the correspondence run only",
